@@ -75,7 +75,7 @@ CHECKS = {
   engine="E3 product enumerator from intended partitions + overlay driver + independent walker",
   technique="exhaustive enumeration of layouts generated from an intended partition x delimiter mechanism x decode flags x decoder; real decode/encode/UpdateSidx, output positions checked by an independent box walker",
   text="Files are generated by a raw writer from an intended partition (1-3 segments x 1-2 fragments x 1-2 tracks) with each delimiter mechanism (styp, one or two top-level sidx, mfra/tfra, none), emsg placements, 0-2 segment-level sidx, zero/non-zero first presentation time, an optional free box between top-level index and first segment (first_offset != 0), optional mdat lead-in and five sample-table forms (explicit trun fields, tfhd defaults, trex defaults, two truns per traf, mixed), and decoded with all four flag combinations by both decoders: the decoded partition must equal the intended one, every moof/mdat pair must be in exactly one segment in order, segment-mode re-encode must be byte-identical per fragment; then UpdateSidx(add, nonZeroEPT both ways)+Encode through the API and the add-sidx example, and anchor, contiguity, per-reference start, end of media and durations are checked against actual box positions.",
-  note="Two known findings are listed in known_findings.txt (trun data_offset rewritten for mdat lead-in; second top-level sidx kept by UpdateSidx). Where two delimiter mechanisms compete the grouping is not judged. 1-2 samples per fragment.",
+  note="Two known findings are listed in known_findings.txt (trun data_offset rewritten for mdat lead-in; second top-level sidx kept by UpdateSidx). Where the start-on-moof option meets a top-level sidx or an mfra read under the ISM flag, the index wins (documented on DecStartOnMoof). 1-2 samples per fragment.",
   design="3 C12"),
  "C19": dict(
   engine="E2 history explorer",
